@@ -87,6 +87,8 @@ class C20(P.Property):
                 st.update(k=rng.randrange(len(KEYS)))
             elif op == "away":
                 st.update(do=rng.choice(["sync", "sync", "close"]))
+            if rng.random() < 0.3:
+                st["nolook"] = True
             steps.append(st)
         plan = {"property": "C20", "seed": seed, "cls": cls, "start": start, "steps": steps, "bystander": bystander}
         if rng.random() < 0.3:
@@ -469,6 +471,8 @@ class C20(P.Property):
                         break
                     if closed:
                         continue
+                if st.get("nolook"):
+                    continue  # nobody looks at the dictionary after this step (the model moved on; later looks and the final one judge it)
                 if not check_all(si, f"after {op}"):
                     break
             if not viol and full:
